@@ -100,8 +100,19 @@ Definition odf_legacy (href : str) : str := href.
 (* open_office/_shared.odf_member_name(href) = resolve_part_name("", href), used for ctx.exists / ctx.read_bytes *)
 Definition odf_member (href : str) : str := resolve_part [] href.
 
-(* ZipContext.exists(p) / read_bytes(p): `p in set(zip.namelist())`, `zip.read(p)` — exact member name *)
+(* ZipContext.exists(p): `p in set(zip.namelist())` — exact member name *)
 Definition member_of (names : list str) (p : str) : option str := if mem_str p names then Some p else None.
+(* ZipContext.read_bytes(p) = zip_utils.read_zip_member(zf, p): info = zf.getinfo(p) ; zf.open(info).read(info.file_size).
+   getinfo looks the name up in zipfile's NameToInfo dict, which holds the LAST central-directory entry of each exact
+   name: with duplicate names the bytes are those of the last entry (entries = the archive's directory, in order) *)
+Fixpoint zip_read {B : Type} (entries : list (str * B)) (p : str) : option B :=
+  match entries with
+  | [] => None
+  | (n, b) :: r => match zip_read r p with
+                   | Some x => Some x
+                   | None => if str_eqb p n then Some b else None
+                   end
+  end.
 
 (* pdf_extractor._extract_image: the filter that names the image format is the LAST stage of the /Filter chain
    (`filter_type[-1]`, "" for an empty array); earlier stages (Flate, ASCIIHex, ASCII85, RunLength, LZW) are
@@ -328,9 +339,11 @@ Fixpoint odt_pass1 (names : list str) (k : Z) (l : list placement) : list (Z * s
            end
   end.
 
+(* the second pass walks EVERY picture frame of the body — also the inner frames of captioned pictures — and relies on
+   the set of processed hrefs (raw spelling, filled by the first pass) to skip what the first pass returned *)
 Definition odt_images (names : list str) (u : list placement) : list (Z * str) :=
   let '(o1, seen, k) := odt_pass1 names 0 (filter (flag_is 1) u) in
-  let '(o2, _, _) := odf_dedupe names seen false k (filter (flag_is 0) u) in
+  let '(o2, _, _) := odf_dedupe names seen false k u in
   o1 ++ o2.
 
 
